@@ -7,7 +7,8 @@ import random
 from . import core, model, realrun, wire
 
 ATOMS = [None, False, True, 0, 1, 2, 1.0, -0.0, '', '0', 'a', 2 ** 63, math.inf]
-EXTRA_ATOMS = [-1, 0.5, 2 ** 53 + 1, float(2 ** 53), -math.inf, 1e300, 5e-324, 'é', '\U0001F600', 'A"\\b', ' x']
+EXTRA_ATOMS = [-1, 0.5, 2 ** 53 + 1, float(2 ** 53), -math.inf, 1e300, 5e-324, 'é', '\U0001F600', 'A"\\b', ' x',
+               0.1 + 0.2, 0.3, 1.0000000006, 1.0000000001, 1e-300, 2e-300, 123456789.0, 123456789.00000001]
 KEYS = ['', '0', 'a', 'b', 1, 0, True, None, 1.0, 0.5, 2 ** 63]
 
 
